@@ -222,8 +222,13 @@ def main(argv: List[str]) -> int:
     finally:
         shutil.rmtree(base, ignore_errors=True)
     out = os.path.join(VERIF, "selftest", "mutants_last.json")
+    merged = {}
+    if os.path.exists(out):
+        with open(out) as fd:
+            merged = json.load(fd)
+    merged.update(results)
     with open(out, "w") as fd:
-        json.dump(results, fd, indent=1)
+        json.dump(merged, fd, indent=1)
     bad = [k for k, v in results.items() if v.get("status") != "CAUGHT"]
     print(f"mutants: {len(results) - len(bad)}/{len(results)} caught; not caught: {bad}")
     return 0 if not bad else 1
